@@ -447,7 +447,7 @@ func (o *cmC19) nontrivial(m *chainMachine) bool { return o.boundaryTx }
 
 func TestVerif_C19_Chain(t *testing.T) {
 	vsInit("C19", c19Rule)
-	prof := cmProfile{weights: map[string]int{"deployCreate": 2, "marketRound": 2, "advance": 2, "boundaryDeploy": 8, "wrongSigner": 1,
+	prof := cmProfile{weights: map[string]int{"deployCreate": 2, "marketRound": 2, "advance": 2, "boundaryDeploy": 8, "govParamChange": 2, "wrongSigner": 1,
 		"provider": 1, "audit": 0, "cert": 0, "deployClose": 1, "groupClose": 1, "groupPause": 1, "groupStart": 1}}
 	cmRun(t, "C19", "chain-machine history containing a signed boundary-pushing create-deployment transaction", func() cmOracle { return &cmC19{} }, prof, false)
 }
